@@ -234,7 +234,7 @@ theorem mwLinesText_ofFlat (ls : List FLine) : mwLinesText (mwOfFlat ls) = lines
 theorem mwdocText_ofFlat (name : Str) (ls : List FLine) : mwdocText name (mwOfFlat ls) = flatText name ls := by
   simp only [mwdocText, flatText, mwLinesText_ofFlat]
 
-theorem canonLines_ofFlat (ls : List FLine) : canonLines (mwOfFlat ls) = ls := by
+theorem mwCanonLines_ofFlat (ls : List FLine) : canonLines (mwOfFlat ls) = ls := by
   induction ls with
   | nil => rfl
   | cons ln r ih =>
@@ -274,7 +274,7 @@ theorem mwCanon_quiet (sl : List MLine) (h : mwQuietKeys sl) : mwQuietKeys (mwCa
   obtain ⟨y, hy, rfl⟩ := hx
   exact h.2 y hy
 
-theorem canonLines_mwCanon (sl : List MLine) : canonLines (mwCanon sl) = canonLines sl := canonLines_ofFlat _
+theorem mwCanonLines_mwCanon (sl : List MLine) : canonLines (mwCanon sl) = canonLines sl := mwCanonLines_ofFlat _
 
 /-- **(c) canonical input yields none**: the canonical text `KEY::"w0 w1 … wn"` of a document of the class reads (lenient
 entry point) as the SAME document, with no `multi_word_coalesce` record and no lexer normalisation record. -/
@@ -290,7 +290,7 @@ theorem C07_multiword_canonical_none (env : Env) (name : Str) (sl : List MLine)
     (by rw [mwCanon_firstNotMeta]; exact hm) hnfc'
   rw [mwCanon, mwdocText_ofFlat] at h1
   refine ⟨reps, warns, ?_, ?_, h3⟩
-  · rw [h1]; simp only [mwDoc, canonLines_ofFlat]
+  · rw [h1]; simp only [mwDoc, mwCanonLines_ofFlat]
   · rw [h2, mwCanon, mwReceipts_ofFlat]
 
 /-- … and, with quiet keys, no warning at all. -/
@@ -306,11 +306,11 @@ theorem C07_multiword_canonical_silent (env : Env) (name : Str) (sl : List MLine
     (by rw [mwCanon_firstNotMeta]; exact hm) (mwCanon_quiet sl hq) hnfc'
   rw [mwCanon, mwdocText_ofFlat, mwReceipts_ofFlat] at h1
   refine ⟨_, ?_, mwdocReps_norm (mwOfFlat (canonLines sl))⟩
-  rw [h1]; simp only [mwDoc, canonLines_ofFlat]
+  rw [h1]; simp only [mwDoc, mwCanonLines_ofFlat]
 
 /-! ### C03: convergence -/
 
-theorem canonLines_emitOK (sl : List MLine) (hok : ∀ x ∈ sl, x.OK) (hem : ∀ x ∈ sl, x.EmitOK) :
+theorem mwCanonLines_emitOK (sl : List MLine) (hok : ∀ x ∈ sl, x.OK) (hem : ∀ x ∈ sl, x.EmitOK) :
     ∀ ln ∈ canonLines sl, ln.EmitOK := by
   intro ln hl
   obtain ⟨x, hx, rfl⟩ := List.mem_map.mp hl
@@ -327,7 +327,7 @@ theorem C03_multiword_converge (env : Env) (name : Str) (sl : List MLine)
     canonLenient env (mwdocText name sl) = .ok (flatText name (canonLines sl)) :=
   C03.canon_of_read env _ _ _ _ _ (C07_multiword_read env name sl hn hne hok hm hnfc)
     (C07_multiword_read_lenient env name sl hn hne hok hm hnfc)
-    (emit_flat env name _ (canonLines sl) (canonLines_emitOK sl hok hem))
+    (emit_flat env name _ (canonLines sl) (mwCanonLines_emitOK sl hok hem))
 
 /-- **any two spacings of the same words (more generally: any two documents of the class with the same canonical lines)
 canonicalise to identical bytes**, through both canonicalisers. -/
@@ -358,10 +358,10 @@ theorem C03_multiword_canonical_fixed (env : Env) (name : Str) (sl : List MLine)
     intro x hx
     simp only [mwCanon, mwOfFlat, List.mem_map] at hx
     obtain ⟨ln, hln, rfl⟩ := hx
-    exact canonLines_emitOK sl hok hem ln hln
+    exact mwCanonLines_emitOK sl hok hem ln hln
   have h := C03_multiword_converge env name (mwCanon sl) hn hne (mwCanon_ok sl hok) hem'
     (by rw [mwCanon_firstNotMeta]; exact hm) hnfc'
-  rw [canonLines_mwCanon, mwCanon, mwdocText_ofFlat] at h
+  rw [mwCanonLines_mwCanon, mwCanon, mwdocText_ofFlat] at h
   exact h
 
 /-! ### non-vacuity -/
